@@ -177,6 +177,10 @@ class ChosenRandom:
     def choice(self, seq):  # noqa: ANN001, ANN201
         return seq[self._pick(0, len(seq) - 1)]
 
+    def __getattr__(self, name: str):  # noqa: ANN204
+        import random as real  # anything else a repaired generate_id might use keeps its stock behaviour
+        return getattr(real, name)
+
 
 _GEN_CACHE: dict = {}
 
@@ -238,7 +242,7 @@ def closest_violations(t: Table, buckets: list, targets: list, kset, stats: dict
             else:
                 # Is the answer exact except that entries sharing a public key with another entry were merged away?
                 full = ref.closest(buckets, target, len(live))
-                has_twin = {i for i in full if any(j != i and key_of[j] == key_of[i] for j in key_of)}
+                has_twin = {i for i in full if any(j != i and key_of[j] == key_of[i] for j in full)}
                 dropped: set = set()
                 while True:
                     rest = [i for i in full if i not in dropped][:k]
@@ -246,7 +250,8 @@ def closest_violations(t: Table, buckets: list, targets: list, kset, stats: dict
                     if not more or not more <= has_twin:
                         break
                     dropped |= more
-                if dropped and got == rest:
+                if dropped and got == rest and all(any(j not in dropped and key_of[j] == key_of[i] for j in full)
+                                                   for i in dropped):
                     out.append(("closest:same-key-entry-dropped", desc + " (the missing entry has the same public key "
                                                                          "as another entry with a different identifier)"))
                 else:
